@@ -55,6 +55,8 @@ type stats struct {
 	Mutable     []string `json:"fields_written_after_construction"`
 	Globals     []string `json:"package_variables_written_by_functions"`
 	GlobalSites int      `json:"package_variable_access_sites"`
+	Captured    []string `json:"closure_captured_variables_assigned_in_closures"`
+	CapSites    int      `json:"captured_variable_access_sites"`
 	Tables      []string `json:"tables"`
 	Exports     []string `json:"exports"`
 }
@@ -151,6 +153,12 @@ func main() {
 					changed, needRT = true, true
 				}
 			}
+			// --- local variables that a func literal assigns although they are declared outside it (state kept by a closure)
+			if top != "verifrt" {
+				if n := insertCapturedAccess(p, f, relFile, st); n > 0 {
+					changed, needRT = true, true
+				}
+			}
 			// --- fuel
 			if top == "evaluator" || top == "props" || top == "object" || top == "di" {
 				n := insertTicks(f)
@@ -223,6 +231,9 @@ func main() {
 	writeExport("ast/verif_order.go", astOrderSrc)
 	writeExport("object/verif_export.go", objectExportSrc(pkgs))
 	writeExport("di/verif_export.go", diExportSrc(pkgs))
+	if hp := findPkg(pkgs, "props/modules/http/builtin"); hp != nil {
+		writeExport("props/modules/http/builtin/verif_export.go", httpExportSrc(hp))
+	}
 	// one registration file per package that owns function-written package-level variables, so that a harness
 	// can put them back between executions (they are interpreter-wide state like the symbol tables)
 	byPkg := map[string][]string{}
@@ -866,6 +877,236 @@ func insertFieldAccess(p *packages.Package, f *ast.File, relFile string, mutable
 	}
 	st.FieldSites += n
 	return n
+}
+
+// insertCapturedAccess inserts verifrt.Field(&v, "captured <file>:<v>", write) before every statement inside a func
+// literal whose own expressions mention a local variable v that is declared OUTSIDE that literal and that some func
+// literal (not containing the declaration) assigns. Such a variable is state kept by a closure: when the closure is
+// called from several evaluations (an http handler, a memoising helper) they share it.
+func insertCapturedAccess(p *packages.Package, f *ast.File, relFile string, st *stats) int {
+	var lits []*ast.FuncLit
+	ast.Inspect(f, func(nd ast.Node) bool {
+		if fl, ok := nd.(*ast.FuncLit); ok {
+			lits = append(lits, fl)
+		}
+		return true
+	})
+	if len(lits) == 0 {
+		return 0
+	}
+	inside := func(pos token.Pos, fl *ast.FuncLit) bool { return fl.Pos() <= pos && pos < fl.End() }
+	localVar := func(id *ast.Ident) *types.Var {
+		obj := p.TypesInfo.Uses[id]
+		v, ok := obj.(*types.Var)
+		if !ok || v.IsField() || v.Pkg() == nil || v.Parent() == nil || v.Parent() == v.Pkg().Scope() || v.Parent() == types.Universe {
+			return nil
+		}
+		return v
+	}
+	rootIdent := func(e ast.Expr) *ast.Ident {
+		for {
+			switch x := e.(type) {
+			case *ast.ParenExpr:
+				e = x.X
+			case *ast.Ident:
+				return x
+			default:
+				return nil
+			}
+		}
+	}
+	captured := map[*types.Var]bool{}
+	for _, fl := range lits {
+		ast.Inspect(fl.Body, func(nd ast.Node) bool {
+			var lhs []ast.Expr
+			switch x := nd.(type) {
+			case *ast.AssignStmt:
+				if x.Tok != token.DEFINE {
+					lhs = x.Lhs
+				}
+			case *ast.IncDecStmt:
+				lhs = []ast.Expr{x.X}
+			}
+			for _, l := range lhs {
+				if id := rootIdent(l); id != nil {
+					if v := localVar(id); v != nil && !inside(v.Pos(), fl) {
+						captured[v] = true
+					}
+				}
+			}
+			return true
+		})
+	}
+	if len(captured) == 0 {
+		return 0
+	}
+	for v := range captured {
+		st.Captured = append(st.Captured, relFile+":"+v.Name())
+	}
+	sort.Strings(st.Captured)
+	n := 0
+	type acc struct {
+		v     *types.Var
+		write bool
+	}
+	scan := func(s ast.Stmt) []acc {
+		var encl []*ast.FuncLit
+		for _, fl := range lits {
+			if inside(s.Pos(), fl) {
+				encl = append(encl, fl)
+			}
+		}
+		if len(encl) == 0 {
+			return nil
+		}
+		found := map[*types.Var]bool{}
+		var order []*types.Var
+		writes := map[*ast.Ident]bool{}
+		ast.Inspect(s, func(nd ast.Node) bool {
+			switch x := nd.(type) {
+			case *ast.BlockStmt, *ast.FuncLit:
+				if nd != ast.Node(s) {
+					return false
+				}
+			case *ast.CaseClause, *ast.CommClause:
+				return false
+			case *ast.AssignStmt:
+				if x.Tok != token.DEFINE {
+					for _, l := range x.Lhs {
+						if id := rootIdent(l); id != nil {
+							writes[id] = true
+						}
+					}
+				}
+			case *ast.IncDecStmt:
+				if id := rootIdent(x.X); id != nil {
+					writes[id] = true
+				}
+			case *ast.Ident:
+				v := localVar(x)
+				if v == nil || !captured[v] || v.Pos() >= s.Pos() {
+					return true
+				}
+				outside := false
+				for _, fl := range encl {
+					if !inside(v.Pos(), fl) {
+						outside = true
+					}
+				}
+				if !outside {
+					return true
+				}
+				if _, seen := found[v]; !seen {
+					order = append(order, v)
+					found[v] = false
+				}
+				if writes[x] {
+					found[v] = true
+				}
+			}
+			return true
+		})
+		var res []acc
+		for _, v := range order {
+			res = append(res, acc{v, found[v]})
+		}
+		return res
+	}
+	var doList func(list []ast.Stmt) []ast.Stmt
+	var walk func(nd ast.Node)
+	doList = func(list []ast.Stmt) []ast.Stmt {
+		var outl []ast.Stmt
+		for _, s := range list {
+			switch s.(type) {
+			case *ast.BlockStmt, *ast.LabeledStmt:
+			default:
+				for _, a := range scan(s) {
+					w := "false"
+					if a.write {
+						w = "true"
+					}
+					addr := &ast.UnaryExpr{Op: token.AND, X: ast.NewIdent(a.v.Name())}
+					outl = append(outl, &ast.ExprStmt{X: &ast.CallExpr{Fun: sel("verifrt", "Field"), Args: []ast.Expr{addr, strLit("captured " + relFile + ":" + a.v.Name()), ast.NewIdent(w)}}})
+					n++
+				}
+			}
+			walk(s)
+			outl = append(outl, s)
+		}
+		return outl
+	}
+	walk = func(nd ast.Node) {
+		ast.Inspect(nd, func(x ast.Node) bool {
+			switch b := x.(type) {
+			case *ast.BlockStmt:
+				b.List = doList(b.List)
+				return false
+			case *ast.CaseClause:
+				b.Body = doList(b.Body)
+				return false
+			case *ast.CommClause:
+				b.Body = doList(b.Body)
+				return false
+			}
+			return true
+		})
+	}
+	for _, d := range f.Decls {
+		if fd, ok := d.(*ast.FuncDecl); ok && fd.Body != nil {
+			fd.Body.List = doList(fd.Body.List)
+		}
+	}
+	st.CapSites += n
+	return n
+}
+
+// httpExportSrc exposes the echo handler function of a handler object, so that a harness can call the real
+// request handler without a server (the names are checked; a tree without them gets a stub).
+func httpExportSrc(p *packages.Package) string {
+	ok := false
+	if o, isT := p.Types.Scope().Lookup("panHandler").(*types.TypeName); isT {
+		if stt, isS := o.Type().Underlying().(*types.Struct); isS {
+			for i := 0; i < stt.NumFields(); i++ {
+				if stt.Field(i).Name() == "handler" && strings.HasSuffix(stt.Field(i).Type().String(), "echo/v4.HandlerFunc") {
+					ok = true
+				}
+			}
+		}
+	}
+	if ok {
+		return `package builtin
+
+import (
+	"github.com/labstack/echo/v4"
+
+	"github.com/Syuparn/pangaea/object"
+)
+
+// added by the verification overlay.
+const VerifHasHandler = true
+
+// VerifHandlerFunc returns the request handler held by a handler object.
+func VerifHandlerFunc(o object.PanObject) (echo.HandlerFunc, bool) {
+	h, ok := o.(*panHandler)
+	if !ok {
+		return nil, false
+	}
+	return h.handler, true
+}
+`
+	}
+	return `package builtin
+
+import (
+	"github.com/labstack/echo/v4"
+
+	"github.com/Syuparn/pangaea/object"
+)
+
+const VerifHasHandler = false
+
+func VerifHandlerFunc(o object.PanObject) (echo.HandlerFunc, bool) { return nil, false }
+`
 }
 
 const astOrderSrc = `package ast
